@@ -549,6 +549,12 @@ impl<F: Field + PrimeCharacteristicRing + Copy, const D: usize> AluAir<F, D> {
                             let mut step = 0usize;
                             let mut acc = prev_ext;
                             for s in 0..num_int {
+                                // A group shorter than `k_max` uses fewer intermediates; the remaining
+                                // slots are not constrained for this arity and stay zero. Stepping on
+                                // would read past the group (and past the trace for a group that ends it).
+                                if step >= k {
+                                    break;
+                                }
                                 let i0 = *first_idx + step;
                                 let i1 = *first_idx + step + 1;
                                 let v0 = &trace.values[i0];
